@@ -36,6 +36,10 @@ var signedEndpoints = []signedEndpoint{
 		}
 		req := vlib.ConnectReq(host, vlib.Pick(r, "geth", "parity", ""), uri, vlib.Pick(r, "", "0xPayout"))
 		req.VipnodeVersion = vlib.Pick(r, "v1", "verif", "", "v<2>&1", "a\u2028b")
+		// any chain: main net, test nets, Ethereum Classic, xDai, private/dev chains
+		req.NodeInfo.Network = ethnode.NetworkID(vlib.Pick(r, 1, 1, 3, 4, 5, 42, 61, 100, 1337, 0, 2147483647))
+		req.NodeInfo.EthProtocol = vlib.Pick(r, "", "63", "0x3f", "10002")
+		req.NodeInfo.Version = vlib.Pick(r, "Geth/verif", "", "besu/v1.4.0/linux-x86_64", "Parity-Ethereum//v2.5.13", "no-slash")
 		return []interface{}{req}
 	}},
 	{"vipnode_update", func(r *rand.Rand, id string) []interface{} {
